@@ -1,6 +1,9 @@
 import Chess.Lemmas.Bounds
 import Chess.Lemmas.Autoplay
 import Chess.Lemmas.ScoreRange
+import Chess.Lemmas.FnsEquiv.Position
+import Chess.Lemmas.FnsEquiv.Move
+import Chess.Lemmas.FnsEquiv.Search
 
 /-!
 # C15 — unchecked fast paths stay within bounds
@@ -127,3 +130,15 @@ end Chess.Props.C15
 #print axioms Chess.Props.C15.move_buffer_of_hypothesis
 #print axioms Chess.Props.C15.selfplay_of_any_length_stays_in_bounds
 #print axioms Chess.Props.C15.material_stays_possible
+
+/-! ### Translation tie (C15.T)
+`tools/translate.py` regenerates `Chess/Gen/Fns.lean` from the Rust text of the leaf functions on every run (a
+parser, not patterns); the theorems below — proved in `Chess/Lemmas/FnsEquiv/*` and re-checked by the kernel whenever
+the generated term changes — say that the TRANSLATED code equals the hand-written model this file's theorems are
+about, for the indices handed to unchecked accesses (`Position::as_usize`, `new_unsafe`, `index_history`) and the `unwrap` in `move_score`. A rewrite of the Rust text that keeps the meaning leaves them true; one that changes it breaks the
+theorem named after the function. -/
+#print axioms Chess.FnsEquiv.Position_as_usize_eq
+#print axioms Chess.FnsEquiv.Position_as_usize_eq_of_valid
+#print axioms Chess.FnsEquiv.Position_new_unsafe_eq
+#print axioms Chess.FnsEquiv.Move_index_history_eq
+#print axioms Chess.FnsEquiv.move_score_unwrap_safe
